@@ -1167,7 +1167,7 @@ def runOcfr : P String := do
       | _ => false)
     -- up to and including the first error
     let upToErr := fun (ks : List String) => ks.takeWhile (· != "e") ++ (if ks.contains "e" then ["e"] else [])
-    let d19shape : Bool := (kind == "flip" || kind == "trunc") && (match keys with
+    let d19shape : Bool := (match keys with
       | [] => false
       | k :: rest => k.contains "e" && rest.all (fun k' => upToErr k' == upToErr k))
     let known := expected.length = origs.length
